@@ -134,3 +134,34 @@ Qed.
 
 Lemma quot_rem_scaled : forall x y, y <> 0 -> x = Z.quot x y * y + Z.rem x y.
 Proof. intros. pose proof (Z.quot_rem' x y). lia. Qed.
+
+(* ---- mod / idiv on special values and zero divisors (XPath 2.0+) ---- *)
+(* operands as they can occur: only float / double carry a non-finite class *)
+Definition wf_num (x : num) : bool := match nc x with Fin => true | _ => is_float (nk x) && (nm x =? 0) end.
+Definition special_pair (a b : num) : bool :=
+  negb (match nc a, nc b with Fin, Fin => true | _, _ => false end) || is_zero b.
+Definition res_val (r : res) : option (Z * Z) :=
+  match r with Val v => match nc v with Fin => Some (nm v, ne v) | _ => None end | Err _ => None end.
+Lemma mod_special_eq_spec : forall a b, wf_num a = true -> wf_num b = true -> special_pair a b = true ->
+  res_cls (mod_ false a b) = res_cls (mod_special_spec a b) /\ res_err (mod_ false a b) = res_err (mod_special_spec a b) /\
+  res_val (mod_ false a b) = res_val (mod_special_spec a b).
+Proof.
+  intros [ka ca ma ea] [kb cb mb eb] Wa Wb S.
+  unfold wf_num, special_pair, mod_, mod_special_spec, is_zero, is_inf, is_nan, negative in *. cbn [nk nc nm ne] in *.
+  destruct ka, kb, ca, cb; cbn in Wa, Wb, S |- *; try discriminate; auto;
+    try (destruct (mb =? 0) eqn:E; cbn in S |- *; try discriminate; auto);
+    try (destruct (ma =? 0) eqn:E2; cbn; auto; try discriminate);
+    try (apply Z.eqb_eq in E2; subst ma; unfold scaled; cbn [nm]; rewrite Z.mul_0_l; cbn; auto).
+Qed.
+Lemma idiv_special_eq_spec : forall a b, wf_num a = true -> wf_num b = true -> special_pair a b = true ->
+  match idiv_special_spec a b with
+  | Some r => idiv a b = r
+  | None => exists c, idiv a b = Err c
+  end.
+Proof.
+  intros [ka ca ma ea] [kb cb mb eb] Wa Wb S.
+  unfold wf_num, special_pair, idiv, idiv_special_spec, is_zero, is_inf, is_nan in *. cbn [nk nc nm ne] in *.
+  destruct ka, kb, ca, cb; cbn in Wa, Wb, S |- *; try discriminate; eauto;
+    try (destruct (mb =? 0) eqn:E; cbn in S |- *; try discriminate; eauto);
+    try (apply Z.eqb_eq in Wa; subst ma; unfold scaled, idiv_patch; cbn [nm]; rewrite Z.mul_0_l; cbn; reflexivity).
+Qed.
